@@ -694,6 +694,12 @@ func runC10(c *Ctx) {
 				}
 			}
 		})
+		// ... or collected by the library: slices.AppendSeq(filterEntries[:0], maps.Values(cache))
+		for _, x := range find(pb, storeToField(fe)) {
+			if allValuesOf(x.(*ssa.Store).Val, loadsField(cache)) {
+				okRebuild = true
+			}
+		}
 		c.verdict(okRebuild, c.nm(pb)+" | filterEntries rebuilt from every cached entry", c.P.Pos(pb.Pos()), "for _, entry := range cache { filterEntries = append(filterEntries, entry) }", "the watch list is not rebuilt from all cached entries")
 	})
 
